@@ -79,7 +79,7 @@ CLAIMED = {
         ref="DESIGN.md section 6, C12"),
     "C13": dict(
         text="The real Handle runs on a real bufio.Reader (interpreted from source, so the reader's buffering is explored) over a scripted reader whose every call is, nondeterministically, a chunk of symbolic bytes (possibly after a pause longer than the tolerance), nothing, EOF, an i/o timeout or another error, with the real framing goroutine running under the engine's scheduler: what reaches the message channel is byte for byte what the script supplied, no message is empty, the output is closed, another read error stops the run at once, zero tolerance stops at the first interruption, and with a tolerance a single interruption never ends the run.",
-        note="clock: time advances by sleeps and declared pauses plus a bounded jitter (stated bound); schedules: lazy and round-robin switching at synchronisation operations; 3 (thorough 4) reader calls.",
+        note="clock: time advances by sleeps and declared pauses plus a bounded jitter (stated bound); schedules: lazy and round-robin switching at synchronisation operations; 3 reader calls.",
         ref="DESIGN.md section 6, C13"),
     "C15": dict(
         text="Self-composition over symbolic frames of eight kinds at both log levels: the type, raw bytes, error text and readable text (MSM time lines excluded) produced by a fresh handler equal those produced by a handler that has already processed other frames and the same frame; displaying a message three times gives identical text and never changes its raw bytes or error text; displaying one by-value copy of a delivered message leaves the other copy's fields and raw bytes untouched and both display the same.",
